@@ -1,6 +1,7 @@
 package core
 
 import (
+	"slices"
 	"bufio"
 	"crypto/sha256"
 	"encoding/hex"
@@ -148,9 +149,22 @@ func RunAclZ(w *bufio.Writer, seed int64, tier string, replay string) error {
 		conn := net.Conn(p1)
 		a.Connections[&conn] = acl.Connection{Authenticated: auth, User: &uc}
 		a.CompileGlobs()
+		// the command vector as a client sends it: the key functions of the real commands return sub-slices of it
+		// (ReadKeys: cmd[1:2], …), so the gate sees keys that share the command's backing array; two option words follow
+		cmdv := append([]string{m.comm}, m.writes...)
+		cmdv = append(cmdv, m.reads...)
+		cmdv = append(cmdv, "opt", "10")
+		sent := append([]string{}, cmdv...)
+		wk, rk := []string{}, []string{} // a command without keys of a kind gets a fresh empty slice, as the real key functions do
+		if len(m.writes) > 0 {
+			wk = cmdv[1 : 1+len(m.writes)]
+		}
+		if len(m.reads) > 0 {
+			rk = cmdv[1+len(m.writes) : 1+len(m.writes)+len(m.reads)]
+		}
 		command := internal.Command{Command: m.comm, Categories: append([]string{}, m.cats...),
 			KeyExtractionFunc: func(cmd []string) (internal.KeyExtractionFuncResult, error) {
-				return internal.KeyExtractionFuncResult{Channels: m.ch, ReadKeys: m.reads, WriteKeys: m.writes}, nil
+				return internal.KeyExtractionFuncResult{Channels: m.ch, ReadKeys: rk, WriteKeys: wk}, nil
 			}}
 		sub := internal.SubCommand{}
 		if m.sub != "" {
@@ -166,8 +180,9 @@ func RunAclZ(w *bufio.Writer, seed int64, tier string, replay string) error {
 					err = fmt.Errorf("PANIC %v", r)
 				}
 			}()
-			err = a.AuthorizeConnection(&conn, []string{m.comm}, command, sub)
+			err = a.AuthorizeConnection(&conn, cmdv, command, sub)
 		}()
+		mutated := !slices.Equal(sent, cmdv)
 		res := "allow"
 		if err != nil {
 			res = denyKind(err)
@@ -180,7 +195,7 @@ func RunAclZ(w *bufio.Writer, seed int64, tier string, replay string) error {
 		dumpUser(&sb, &u)
 		sb.WriteString(" M")
 		m.dump(&sb)
-		fmt.Fprintf(&sb, " R %s", res)
+		fmt.Fprintf(&sb, " R %s X %s", res, b01(mutated))
 		w.WriteString(sb.String())
 		w.WriteByte('\n')
 		if seqW != nil {
